@@ -33,6 +33,7 @@ fn main() {
         "errors" => errors::main(&args[1..]),
         "totality" => totality::main(&args[1..]),
         "purity" => purity::main(&args[1..]),
+        "sched" => purity::main_sched(&args[1..]),
         "sqlast" => sqlast::main(&args[1..]),
         "sqlparse" => sqlast::main_parse(&args[1..]),
         "number" => literal::main_numbers(&args[1..]),
